@@ -1060,10 +1060,6 @@ impl CodegenContext {
                                     offset += 256;
                                 }
                                 offset as i64
-                            } else if target_pc == 0 {
-                                // We probably couldn't determine the target_pc, so let's ignore the error for now.
-                                // We'll just return a dummy offset. This instruction will be re-emitted in a next pass anyway.
-                                0
                             } else {
                                 // Still emit the two bytes of a branch instruction, so the addresses of everything that
                                 // follows do not depend on whether this branch happens to be in range in this pass
